@@ -88,11 +88,13 @@ Fixpoint texts_ok07 (t : template16) : bool :=
       && (match r with [] => true | _ => canonical s end) && texts_ok07 r
   | Block _ _ _ body :: r => body_ok07 body && texts_ok07 r
   | SigBlock _ _ body :: r => body_ok07 body && texts_ok07 r
-  | TransBlock _ _ _ :: _ => false          (* nested transition blocks carry no USER tags in the shipped files; not admitted here *)
-  | EvBlock _ _ _ :: _ => false
+  (* transition blocks, per-event blocks with signatures, initial-state lines and the printed transition table carry no USER tags in the
+     shipped files: their output lines are judged per element record as plain lines (dyn_lines_plain below) *)
+  | TransBlock _ _ _ :: r => texts_ok07 r
+  | EvBlock _ _ _ :: r => texts_ok07 r
   | MsgBlock _ _ _ _ :: _ => false
-  | InitLine _ :: _ => false
-  | TableLine _ _ :: _ => false
+  | InitLine _ :: r => texts_ok07 r
+  | TableLine _ _ :: r => texts_ok07 r
   | UserLine _ :: r => texts_ok07 r          (* its output line is judged per assignment: user_lines_plain *)
   end.
 
@@ -107,6 +109,17 @@ Definition in_grammar07 (t : template16) : bool := texts_ok07 t && inky t.
 (* the output of the lines with user tags outside blocks, under the assignment of the element record: plain, well-formed lines *)
 Definition user_lines_plain (e : elements) (t : template16) : bool :=
   forallb (fun it => match it with UserLine l => closed_plain_ok (ref_line (el_user e) l) && for_plain (ref_line (el_user e) l) | _ => true end) t.
+
+(* the items whose output carries no USER tag in any shipped file; their output lines under the element record: plain, well-formed lines *)
+Definition dyn_item (it : item16) : bool :=
+  match it with TransBlock _ _ _ => true | EvBlock _ _ _ => true | InitLine _ => true | TableLine _ _ => true | _ => false end.
+(* such an item may put out a chunk of several lines at once (the header and first row of the transition table): a chunk of text that is empty or ends
+   with LF, none of its lines a USER tag line *)
+Definition chunk_end (s : string) : bool := String.eqb s "" || ends_lf s.
+Definition chunk_plain_ok (s : string) : bool :=
+  negb (is_tag (tab4 s)) && wf_itemb (PreserveCore.Plain s) && no_char CR s && chunk_end s.
+Definition dyn_lines_plain (e : elements) (t : template16) : bool :=
+  forallb (fun it => if dyn_item it then forallb chunk_plain_ok (ref_item16 e it) else true) t.
 
 (* ---------------------------------------------------------------- the cleaned names of the USER tags of the output *)
 Definition akey_seg (tb : list (string * string)) (g : seg) : string :=
@@ -180,3 +193,48 @@ Definition names_ok (t : template16) (e : elements) : bool :=
 (* no guard is named like a state hook On<State>Entry / On<State>Exit (Test.TEMPLATEStateMachine.cs: USER_<GUARD> vs USER_On<STATE>Entry) *)
 Definition hooks_free (e : elements) : bool :=
   forallb (fun g => forallb (fun s => negb (String.eqb g ("On" ++ (s ++ "Entry"))) && negb (String.eqb g ("On" ++ (s ++ "Exit")))) (el_states e)) (el_guards e).
+
+(* ---------------------------------------------------------------- the names hypothesis of the whole files TEMPLATEStateMachine.py / .h *)
+(* a string without '{', backslash and CR: what a name, an oracle string and every literal piece of the template must be for the output chunks of the
+   transition blocks / signature blocks / initial-state lines / transition-table line to be plain chunks (Proofs/Dyn07.v: dyn_plain_of_names) *)
+Definition okc (c : ascii) : bool := negb (Ascii.eqb c LBR) && negb (Ascii.eqb c BSL) && negb (Ascii.eqb c CR).
+Fixpoint clean (s : string) : bool := match s with EmptyString => true | String c r => okc c && clean r end.
+Definition seg_clean (g : seg) : bool :=
+  match g with Lit s => clean s | Tag n None => clean n | Tag n (Some d) => clean n && clean d end.
+Definition uline_clean (l : uline) : bool := forallb seg_clean l.
+Definition eitem_clean (x : eitem) : bool := match x with ELine l => uline_clean l | EGuard _ _ body => forallb uline_clean body end.
+Definition titem_clean (x : titem) : bool := match x with TLine l => uline_clean l | TEvent _ _ body => forallb eitem_clean body end.
+Definition dyn_item_clean (it : item16) : bool :=
+  match it with
+  | TransBlock _ _ body => forallb titem_clean body
+  | EvBlock _ _ body => forallb uline_clean body
+  | InitLine l => uline_clean l
+  | TableLine pre _ => clean pre
+  | _ => true
+  end.
+Definition dyn_ok07 (t : template16) : bool := forallb dyn_item_clean t.
+
+Definition tb_clean (tb : list (string * string)) : bool := forallb (fun kv => clean (snd kv)) tb.
+Definition dyn_names_ok (e : elements) : bool :=
+  forallb clean (el_states e) && forallb clean (el_events e) && clean (el_first e)
+  && forallb (fun se => clean (fst se) && forallb (fun et => clean (fst et) && forallb tb_clean (snd et)) (snd se)) (el_tps e)
+  && forallb (forallb clean) (el_rows e).
+
+(* the oracle's signature strings, as far as the template uses them: a line with <<<SIGNATURE>>> needs the signatures without defaults, a line with
+   <<<SIGNATUREWITHDEFAULTS>>> those with defaults (a C++ default "={}" does not matter to a file that only asks for the plain signature) *)
+Definition sig_part (d : bool) (x : string * (string * string)) : string := if d then snd (snd x) else fst (snd x).
+Definition body_sigs_clean (sigs : list (string * (string * string))) (body : list uline) : bool :=
+  forallb (fun l => match sig_kind l with Some d => forallb (fun x => clean (sig_part d x)) sigs | None => true end) body.
+Definition sigs_clean07 (t : template16) (sigs : list (string * (string * string))) : bool :=
+  forallb (fun it => match it with EvBlock _ _ body => body_sigs_clean sigs body | _ => true end) t.
+
+(* the names hypothesis of the whole files TEMPLATEStateMachine.py / TEMPLATEStateMachine.h (their USER tags are all fixed text): every name is a
+   non-empty alphanumeric word; the initial state, every name and value of the per-state transition lists, every cell of the table rows and the
+   signature strings of the oracle that the template asks for are free of '{', backslash and CR -- syntactic *)
+Definition names_plain (e : elements) : bool := forallb name_ok (all_names e).
+Definition names_ok_x (t : template16) (e : elements) : bool := names_plain e && dyn_names_ok e && sigs_clean07 t (el_evsigs e).
+
+(* a line that is the empty string (no newline: what the first filtering leaves of a line it empties) adds nothing to the written text; the
+   file's lines without such entries *)
+Definition is_empty_raw (it : item16) : bool := match it with Raw s => String.eqb s "" | _ => false end.
+Definition strip (t : template16) : template16 := filter (fun it => negb (is_empty_raw it)) t.
